@@ -2,7 +2,7 @@
 //!
 //! Case:  `fft <f64|f32> ; op ; op ; … ; op` — every op is a call on ONE object; the answer is the
 //! result of the LAST op (the earlier ones are the history the object has seen).
-//! ops:   `u n` | `m a b` | `mi a b res` | `f v n` | `fi v n rx ry` | `inv xs ys` | `ii xs ys res` | `fm a b n` | `fmx a b n`
+//! ops:   `u n` | `m a b` | `mi a b res` | `f v n` | `fi v n rx ry` | `inv xs ys` | `ii xs ys res` | `fm a b n` | `fmx a b n` | `fmi a b n res`
 //! raw:   i64 vectors (`[..]`, digest above 48 entries), complex vectors as bit patterns
 //! view:  `<vec> fresh=<same|diff> oracle=<exact|wrong>` — `fresh` repeats the last call on a brand-new
 //!        object and compares bit for bit; `oracle` is an exact i128 schoolbook convolution.
@@ -41,6 +41,8 @@ enum Op {
     Fm(Vec<i32>, Vec<i32>, usize),
     /// forward transforms on this object, inverse transform of the product on a brand-new object
     Fmx(Vec<i32>, Vec<i32>, usize),
+    /// forward transforms, pointwise product, fft_inv_into with a pre-filled destination of any length
+    Fmi(Vec<i32>, Vec<i32>, usize, Vec<i64>),
 }
 
 #[derive(Clone, PartialEq)]
@@ -71,6 +73,7 @@ fn parse_op(s: &str) -> Option<Op> {
         ["ii", xs, ys, r] => Some(Op::Ii(parse_vec(xs)?, parse_vec(ys)?, parse_vec(r)?)),
         ["fm", a, b, n] => Some(Op::Fm(parse_vec(a)?, parse_vec(b)?, n.parse().ok()?)),
         ["fmx", a, b, n] => Some(Op::Fmx(parse_vec(a)?, parse_vec(b)?, n.parse().ok()?)),
+        ["fmi", a, b, n, r] => Some(Op::Fmi(parse_vec(a)?, parse_vec(b)?, n.parse().ok()?, parse_vec(r)?)),
         _ => None,
     }
 }
@@ -100,7 +103,7 @@ fn valid(op: &Op) -> bool {
         Op::Fi(v, n, rx, ry) => rx.len() == ry.len() && v.len() <= fft_size(v.len(), *n),
         Op::Inv(xs, ys) => xs.len() == ys.len() && is_pow2(xs.len()),
         Op::Ii(xs, ys, _) => xs.len() == ys.len() && is_pow2(xs.len()),
-        Op::Fm(a, b, n) | Op::Fmx(a, b, n) => is_pow2(*n) && a.len() <= *n && b.len() <= *n,
+        Op::Fm(a, b, n) | Op::Fmx(a, b, n) | Op::Fmi(a, b, n, _) => is_pow2(*n) && a.len() <= *n && b.len() <= *n,
     }
 }
 
@@ -150,6 +153,14 @@ fn call<F: HF>(fft: &mut FFT<F>, op: &Op) -> Out {
             let fb = fft.fft(b, *n);
             let prod: Vec<Complex<F>> = fa.iter().zip(fb.iter()).map(|(x, y)| *x * *y).collect();
             Out::IVec(FFT::<F>::new().fft_inv(&prod))
+        }
+        Op::Fmi(a, b, n, res) => {
+            let fa = fft.fft(a, *n);
+            let fb = fft.fft(b, *n);
+            let prod: Vec<Complex<F>> = fa.iter().zip(fb.iter()).map(|(x, y)| *x * *y).collect();
+            let mut res = res.clone();
+            fft.fft_inv_into(&prod, &mut res);
+            Out::IVec(res)
         }
     });
     match r {
@@ -210,6 +221,15 @@ fn conv_exact(a: &[i32], b: &[i32]) -> Vec<i128> {
     c
 }
 
+/// out[i] = sum_k c[i + k*n]  (c followed by zeros when |c| <= n)
+fn cyclic(c: &[i128], n: usize) -> Vec<i128> {
+    let mut out = vec![0i128; n];
+    for (i, &x) in c.iter().enumerate() {
+        out[i % n] += x;
+    }
+    out
+}
+
 fn expected(op: &Op) -> Option<Vec<i128>> {
     match op {
         Op::M(a, b) => Some(conv_exact(a, b)),
@@ -221,24 +241,39 @@ fn expected(op: &Op) -> Option<Vec<i128>> {
             }
             Some(r)
         }
-        Op::Fm(a, b, n) | Op::Fmx(a, b, n) => {
-            let mut c = conv_exact(a, b);
-            if c.len() < *n {
-                c.resize(*n, 0);
+        Op::Fm(a, b, n) | Op::Fmx(a, b, n) => Some(cyclic(&conv_exact(a, b), *n)),
+        Op::Fmi(a, b, n, res) => {
+            // destination + cyclic (size n) convolution on the first min(len, n) entries, unchanged beyond
+            let c = cyclic(&conv_exact(a, b), *n);
+            let mut r: Vec<i128> = res.iter().map(|&x| x as i128).collect();
+            for (x, y) in r.iter_mut().zip(c.iter()) {
+                *x += *y;
             }
-            Some(c)
+            Some(r)
         }
         _ => None,
     }
 }
 
-fn view_of(op: &Op, used: &Out, fresh: &Out) -> String {
+fn view_of(op: &Op, used: &Out, fresh: &Out, prec_is_f32: bool) -> String {
     let raw = show_out(used);
     let same = if used == fresh { "fresh=same" } else { "fresh=diff" };
     match (op, used) {
         (Op::U(_), _) | (_, Out::Panic(_)) | (_, Out::Invalid) => raw,
-        (Op::F(..), Out::CVec(xs)) | (Op::Fi(..), Out::CVec(xs)) => format!("len={} {}", xs.len(), same),
-        (Op::Inv(..), _) | (Op::Ii(..), _) => same.to_string(),
+        (Op::F(..), Out::CVec(xs)) => format!("len={} {}", xs.len(), same),
+        (Op::Fi(v, n, rx, ry), Out::CVec(xs)) => {
+            // destination entries beyond the transform size must be untouched, bit for bit
+            let k = fft_size(v.len(), *n);
+            let orig: Vec<(u64, u64)> = if prec_is_f32 { cbits(&cplx::<f32>(rx, ry)) } else { cbits(&cplx::<f64>(rx, ry)) };
+            let keep = xs.len() == orig.len() && xs.iter().skip(k).eq(orig.iter().skip(k));
+            format!("len={} {} tail={}", xs.len(), same, if keep { "kept" } else { "changed" })
+        }
+        (Op::Inv(..), _) => same.to_string(),
+        (Op::Ii(xs, _, res), Out::IVec(out)) => {
+            let keep = out.len() == res.len() && out.iter().skip(xs.len()).eq(res.iter().skip(xs.len()));
+            format!("{} tail={}", same, if keep { "kept" } else { "changed" })
+        }
+        (Op::Ii(..), _) => same.to_string(),
         (_, Out::IVec(xs)) => {
             let orc = match expected(op) {
                 Some(e) => {
@@ -268,7 +303,7 @@ fn run_ops<F: HF>(ops: &[Op]) -> String {
     let used = call(&mut obj, last);
     let mut fresh_obj = FFT::<F>::new();
     let fresh = call(&mut fresh_obj, last);
-    out2(&show_out(&used), &view_of(last, &used, &fresh))
+    out2(&show_out(&used), &view_of(last, &used, &fresh, F::NAME == "f32"))
 }
 
 fn run_case(line: &str) -> String {
@@ -444,6 +479,35 @@ impl<'a> Gen<'a> {
         }
     }
 
+    /// destination length: relative to the number `l` of entries the call writes and to the transform size `n`
+    fn dest_len(&mut self, l: usize, n: usize) -> usize {
+        let k = self.rng.below(8);
+        let rl = match k {
+            0 => l.saturating_sub(1 + self.rng.below(3) as usize),
+            1 => l + 1 + self.rng.below(3) as usize,
+            2 => n + 1 + self.rng.below(n as u64) as usize,     // longer than n (up to 2n)
+            3 => 2 * n + 1 + self.rng.below(5) as usize,        // longer than 2n
+            4 => self.rng.below(l as u64 + 1) as usize,         // anything shorter, empty included
+            _ => l,
+        };
+        let rl = rl.min(l + 5000); // keep lines of huge cases bounded
+        self.stats.bump(if rl < l { "dest:shorter" } else if rl == l { "dest:equal" } else if rl <= n { "dest:longer" } else if rl <= 2 * n { "dest:>n" } else { "dest:>2n" });
+        rl
+    }
+
+    fn dest(&mut self, rl: usize) -> Vec<i64> {
+        (0..rl)
+            .map(|_| {
+                let r = self.rng.range_i64(-1_000_000_000_000, 1_000_000_000_000);
+                if r == 0 {
+                    7
+                } else {
+                    r
+                }
+            })
+            .collect()
+    }
+
     fn measured(&mut self, prec: &str, opk: &str, a: &[i32], b: &[i32]) -> (String, usize) {
         let l = a.len() + b.len() - 1;
         let mut n = 2;
@@ -454,24 +518,17 @@ impl<'a> Gen<'a> {
         match opk {
             "m" => (format!("m {} {}", join(a), join(b)), n),
             "mi" => {
-                // destination pre-filled with non-zero data; shorter / equal / longer than |a|+|b|-1
-                let rl = match self.rng.below(4) {
-                    0 => l.saturating_sub(1 + self.rng.below(3) as usize),
-                    1 => l + 1 + self.rng.below(3) as usize,
-                    _ => l,
-                };
-                self.stats.bump(if rl < l { "dest:shorter" } else if rl > l { "dest:longer" } else { "dest:equal" });
-                let res: Vec<i64> = (0..rl)
-                    .map(|_| {
-                        let r = self.rng.range_i64(-1_000_000_000_000, 1_000_000_000_000);
-                        if r == 0 {
-                            7
-                        } else {
-                            r
-                        }
-                    })
-                    .collect();
+                // destination pre-filled with non-zero data; shorter / equal / longer than |a|+|b|-1,
+                // also longer than the transform size n and than 2n
+                let rl = self.dest_len(l, n);
+                let res = self.dest(rl);
                 (format!("mi {} {} {}", join(a), join(b), join(&res)), n)
+            }
+            "fmi" => {
+                let nn = if self.rng.chance(1, 4) { n * 2 } else { n };
+                let rl = self.dest_len(nn, nn);
+                let res = self.dest(rl);
+                (format!("fmi {} {} {} {}", join(a), join(b), nn, join(&res)), nn)
             }
             _ => {
                 let nn = if self.rng.chance(1, 4) { n * 2 } else { n };
@@ -502,7 +559,7 @@ impl<'a> Gen<'a> {
 }
 
 const HIST: [&str; 5] = ["fresh", "larger", "smaller", "same", "interleaved"];
-const OPS: [&str; 4] = ["m", "mi", "fm", "fmx"];
+const OPS: [&str; 5] = ["m", "mi", "fm", "fmx", "fmi"];
 
 fn gen(args: &Args, emit: &mut dyn FnMut(String), stats: &mut Stats) {
     let thorough = args.tier == "thorough";
@@ -521,7 +578,7 @@ fn gen(args: &Args, emit: &mut dyn FnMut(String), stats: &mut Stats) {
                 }
                 let pa = PATTERNS[ctr % PATTERNS.len()];
                 let pb = PATTERNS[(ctr / PATTERNS.len()) % PATTERNS.len()];
-                let opk = OPS[(la + 2 * lb + ctr / 7) % 4];
+                let opk = OPS[(la + 2 * lb + ctr / 7) % 5];
                 let hist = HIST[(la * 3 + lb + ctr / 5) % HIST.len()];
                 g.mul_case(prec, la, lb, pa, pb, opk, hist, "pairs<=40");
             }
@@ -574,7 +631,7 @@ fn gen(args: &Args, emit: &mut dyn FnMut(String), stats: &mut Stats) {
             if k >= 14 && idx % 4 != (k as usize) % 4 {
                 continue;
             }
-            let opk = OPS[ctr % 4];
+            let opk = OPS[ctr % 5];
             let hist = HIST[(ctr / 3) % HIST.len()];
             g.mul_case("f64", la, lb, pa, pb, opk, hist, "pow2-boundary");
             if k <= 10 || ctr % 4 == 0 {
@@ -618,7 +675,7 @@ fn gen(args: &Args, emit: &mut dyn FnMut(String), stats: &mut Stats) {
             1 => {
                 let len = 1 + g.rng.below(n as u64) as usize;
                 let v = coeffs(&mut g.rng, len, 1000, "mixed");
-                let rl = (n + g.rng.below(5) as usize).saturating_sub(2).max(1);
+                let rl = g.dest_len(n, n).max(1);
                 let rx = coeffs(&mut g.rng, rl, 1000, "mixed");
                 let ry = coeffs(&mut g.rng, rl, 1000, "mixed");
                 g.stats.bump("op:fi");
@@ -633,7 +690,7 @@ fn gen(args: &Args, emit: &mut dyn FnMut(String), stats: &mut Stats) {
             _ => {
                 let xs = coeffs(&mut g.rng, n, 1000, "mixed");
                 let ys = coeffs(&mut g.rng, n, 1000, "mixed");
-                let rl = (n + g.rng.below(5) as usize).saturating_sub(2);
+                let rl = g.dest_len(n, n);
                 let res: Vec<i64> = (0..rl).map(|_| g.rng.range_i64(-1_000_000, 1_000_000)).collect();
                 g.stats.bump("op:ii");
                 format!("ii {} {} {}", join(&xs), join(&ys), join(&res))
@@ -642,6 +699,38 @@ fn gen(args: &Args, emit: &mut dyn FnMut(String), stats: &mut Stats) {
         let mut ops = g.history(prec, hist, n);
         ops.push(last);
         g.stats.bump("stream:solo-transforms");
+        g.stats.bump(&format!("prec:{}", prec));
+        (g.emit)(format!("fft {} ; {}", prec, ops.join(" ; ")));
+    }
+
+    // (iv') transform smaller than |a|+|b|-1: forward·pointwise·inverse is the CYCLIC convolution of size n
+    let nwrap = if thorough { 400 } else { 60 };
+    for i in 0..nwrap {
+        let prec = if i % 3 == 2 { "f32" } else { "f64" };
+        let k = 1 + g.rng.below(if thorough { 10 } else { 7 }) as u32;
+        let n = 1usize << k;
+        let la = n / 2 + 1 + g.rng.below((n / 2) as u64) as usize;
+        let lb = (n - la + 2 + g.rng.below((la - 1) as u64 + 1) as usize).min(n);
+        let m = env_max(prec, la, lb);
+        if m == 0 {
+            continue;
+        }
+        let pa = *g.rng.pick(&PATTERNS);
+        let a = coeffs(&mut g.rng, la, m, pa);
+        let b = coeffs(&mut g.rng, lb, m, "mixed");
+        let last = match i % 3 {
+            0 => format!("fm {} {} {}", join(&a), join(&b), n),
+            1 => format!("fmx {} {} {}", join(&a), join(&b), n),
+            _ => {
+                let rl = g.dest_len(n, n);
+                let res = g.dest(rl);
+                format!("fmi {} {} {} {}", join(&a), join(&b), n, join(&res))
+            }
+        };
+        let hist = HIST[i % HIST.len()];
+        let mut ops = g.history(prec, hist, n);
+        ops.push(last);
+        g.stats.bump("stream:cyclic-wrap");
         g.stats.bump(&format!("prec:{}", prec));
         (g.emit)(format!("fft {} ; {}", prec, ops.join(" ; ")));
     }
